@@ -50,6 +50,23 @@ type episode struct {
 	hasPK     bool
 	shares    map[int]tbls.PrivateKey
 	pubshares map[int]tbls.PublicKey
+	sigCache  map[string]tbls.Signature // (key bytes, msg) -> Sign result (deterministic)
+}
+
+// sign is tbls.Sign memoised per episode (BLS signing is deterministic).
+func (e *episode) sign(k tbls.PrivateKey, msg []byte) (tbls.Signature, error) {
+	key := string(k[:]) + "|" + string(msg)
+	if s, ok := e.sigCache[key]; ok {
+		return s, nil
+	}
+	s, err := tbls.Sign(k, msg)
+	if err == nil {
+		if e.sigCache == nil {
+			e.sigCache = map[string]tbls.Signature{}
+		}
+		e.sigCache[key] = s
+	}
+	return s, err
 }
 
 // planReader serves a fixed byte plan and records what was consumed; an exhausted plan is an error.
@@ -233,7 +250,7 @@ func (e *episode) doRec(run *hx.Run, ids []int) string {
 
 // aggregate combines the given partials and compares with the undivided key's signature.
 func (e *episode) aggregate(parts map[int]tbls.Signature, msg []byte) (agg, ver bool, errs string) {
-	full, err := tbls.Sign(e.secret, msg)
+	full, err := e.sign(e.secret, msg)
 	if err != nil {
 		return false, false, "err"
 	}
@@ -249,7 +266,7 @@ func (e *episode) aggregate(parts map[int]tbls.Signature, msg []byte) (agg, ver 
 func (e *episode) partials(run *hx.Run, ids []int, msg []byte, check bool) map[int]tbls.Signature {
 	parts := map[int]tbls.Signature{}
 	for _, i := range ids {
-		s, err := tbls.Sign(e.shares[i], msg)
+		s, err := e.sign(e.shares[i], msg)
 		hx.Must(err)
 		parts[i] = s
 		if check {
@@ -333,6 +350,9 @@ func main() {
 			case err != nil:
 				live = false
 				run.Count("new:" + errClass(err))
+				if t >= 2 && new(big.Int).SetBytes(secret[:]).Cmp(rOrder) < 0 && errClass(err) != "err random" {
+					run.Violate("tbls:split_error", fmt.Sprintf("ThresholdSplitInsecure n=%d t=%d failed: %v", n, t, err))
+				}
 				run.Op(op, errClass(err))
 			default:
 				ep.install(run, n, t, secret, sh)
@@ -353,6 +373,9 @@ func main() {
 			sh, err := tbls.ThresholdSplit(secret, uint(n), uint(t))
 			if err != nil {
 				live = false
+				if t >= 2 && new(big.Int).SetBytes(secret[:]).Cmp(rOrder) < 0 {
+					run.Violate("tbls:split_error", fmt.Sprintf("ThresholdSplit n=%d t=%d failed: %v", n, t, err))
+				}
 				run.Op(fmt.Sprintf("new rnd %d %d %s -", n, t, f[4]), errClass(err))
 				return
 			}
@@ -511,9 +534,19 @@ func main() {
 					}
 				}
 			} else {
+				// number of qualified subsets, capped
+				total := 0
+				for m := 1; m <= full; m++ {
+					if popcount(m) >= t {
+						total++
+					}
+				}
+				if total > 40 {
+					total = 40
+				}
 				seen := map[int]bool{full: true}
 				quals = append(quals, full)
-				for len(quals) < 40 {
+				for len(quals) < total {
 					m := 0
 					want := t + rng.Intn(n-t+1)
 					if rng.Chance(1, 2) {
@@ -525,9 +558,6 @@ func main() {
 					if !seen[m] {
 						seen[m] = true
 						quals = append(quals, m)
-					}
-					if len(seen) >= 1<<n-1 {
-						break
 					}
 				}
 			}
